@@ -280,6 +280,27 @@ def momentum(ctx):
 
 def shampoo_root(ctx):
   m = ctx.model
+  # statistics: L <- decay * L + (1 - decay) * G G^T   (decay == 1: plain sum)
+  fe = m.func('tearfree.shampoo', '_ema_update')
+  ctx.analysed(fe)
+  for one in (True, False):
+    eve = evaluator(m, decide=Decider(cmps={('decay', '==', 1.0): one}))
+    re_ = eve.run(fe)
+    Pe = lambda nm: sym('param', fe.short, nm)
+    src = 'old + new' if one else 'old * decay + new * (1 - decay)'
+    ok_e = Comparer().same(re_, spec_term(eve, src, {'old': Pe('old'), 'new': Pe('new'), 'decay': Pe('decay')}))
+    ctx.ob('C15.T5', fe.short, f'statistics EMA [decay==1: {one}]', ok_e,
+           f'block statistics must be updated as `{src}` (weights decay and 1 - decay on the old statistic and the new Gram matrix); got `{Comparer().fmt(re_)[:160]}`',
+           ctx.loc(fe), sample=src)
+  fs_ = m.func('tearfree.shampoo', '_update_block_stats')
+  evs_ = evaluator(m, opaque={'_ema_update'})
+  evs_.run(fs_)
+  for c_ in [c for c in evs_.calls if c.callee.endswith('._ema_update')]:
+    okd = c_.args.get('decay') is sym('param', fs_.short, 'second_moment_decay') and c_.args.get('old', NONE).op == 'elem' and \
+        is_ext_call(c_.args.get('new', NONE), 'jax.numpy.tensordot')
+    ctx.ob('C15.T5', fs_.short, 'EMA(old statistic, new Gram, second_moment_decay)', okd,
+           '_ema_update must receive (this axis\'s statistic, the new Gram matrix, second_moment_decay) in that order', ctx.loc(fs_),
+           sample='_ema_update(cov, new_cov, second_moment_decay)')
   fr = m.func('tearfree.shampoo', '_pth_inv_root')
   fp = m.func('tearfree.shampoo', '_update_block_precond')
   ctx.analysed(fr, fp)
